@@ -16,6 +16,8 @@ R5.13 the union decoder reads the discriminator from the type as given and keeps
 R5.14 the class name synthesized for an unnamed inline response body depends on the response (status), not on the operation alone
 R5.15 the resolver's self-import decision compares the package of the current file (else `cast("Pets", response.json())`: raw dicts)   [= R13.9]
 R5.16 the decoder emitted for a streamed JSON body follows the response's `stream_format` (ndjson -> iter_ndjson, not the SSE decoder)
+R5.18 a primary success response declared as the range `2XX` (the strategy resolver accepts every key that starts with 2) gets a success arm in the
+      generated dispatch - otherwise the method has no return / yield at all                                                        [= R13.10]
 R5.17 the placeholder the loader stores for a media type without schema counts as "no schema" in the strategy resolver (bytes / str inferred from the media type)
 R5.11 the streaming body yields raw bytes exactly when the strategy's return type (the annotated item type) is bytes
 R5.9  the handler's "is the named schema a type alias?" tests exclude what ModelVisitor's classification excludes (enums are classes)
@@ -222,6 +224,7 @@ def run(repo: Repo, rep: Report, tier: str) -> None:
     rule_one_name_per_response(repo, rep, "R5.14")
     rule_stream_decoder_follows_format(repo, rep, "R5.16")
     rule_schemaless_media_type(repo, rep, "R5.17")
+    rule_range_primary_gets_an_arm(repo, rep, "R5.18")
     # R5.15: a tag module is never taken for a model module of the same name (the body would be handed back as raw dicts through `cast`)  [= R13.9]
     from rules.c13 import rule_self_import_compares_the_package
 
@@ -858,3 +861,58 @@ def rule_schemaless_media_type(repo: Repo, rep, rule: str = "R5.17") -> None:
         rep.violation(rule, sub, f"{rs.fq}|placeholder-schema-is-truthy",
                       f"`{sv}` is the loader's placeholder object for a media type without schema, so `if not {sv}` never holds: the inference `image/* -> bytes`, `text/* -> str` is skipped, "
                       "the return type becomes Any and the handler JSON-decodes a binary / text body (UnicodeDecodeError, JSONDecodeError, or the text `1.10` read as the number 1.1)", rs.loc(gets[0]))
+
+
+# ------------------------------------------------------------------------------------------------ R5.18 a range-declared primary response gets an arm
+def rule_range_primary_gets_an_arm(repo: Repo, rep, rule: str = "R5.18") -> None:
+    """Signature, Protocol and mock follow the response strategy, and `_get_primary_response` accepts any key that starts with "2" - the range
+    key `2XX` included.  The dispatch generator writes `case <int>:` arms for numeric keys only; unless it also writes a success arm guarded by
+    the 2xx range, a `2XX` primary response has no arm: the method body contains no return (a conforming answer raises 'Unhandled status code')
+    and, for a streamed response, no `yield` - the client method is a coroutine function while Protocol and mock are async generators."""
+    from rules.c06 import _guard_codes
+
+    rs = repo.module("types.strategies.response_strategy")
+    sel = next((f for q, f in rs.functions.items() if q.endswith("._get_primary_response")), None)
+    if sel is None:
+        raise AnalysisError(f"{rule}: anchor vanished: _get_primary_response")
+    accepts_range = any(isinstance(c.func, ast.Attribute) and c.func.attr == "startswith" and c.args and const_str(c.args[0]) == "2" for c in calls_in(sel.node))
+    hmod = repo.module(HANDLER)
+    gen = next((f for q, f in hmod.functions.items() if q.endswith(".generate_response_handling")), None)
+    if gen is None:
+        raise AnalysisError(f"{rule}: anchor vanished: generate_response_handling")
+    sub = f"{hmod.relpath}:generate_response_handling success arm of a range-declared (2XX) primary response"
+    if not accepts_range:
+        rep.ok(rule, sub, "the strategy resolver selects numeric keys only: no range key can become the primary response", sel.loc())
+        return
+
+    def body(fn, r):
+        arms = []
+        for c in calls_in(fn.node):
+            if isinstance(c.func, ast.Attribute) and c.func.attr == "write_line" and c.args:
+                t = template_of(c.args[0], fn.node)
+                txt = t.text.lstrip() if t is not None else ""
+                if txt.startswith("case ") and " if " in txt:
+                    codes = _guard_codes(txt)
+                    if codes and codes <= set(range(200, 300)) and len(codes) == 100:
+                        arms.append(c)
+        good = None
+        for c in arms:
+            st = c
+            while parent(st) is not None and not isinstance(st, ast.stmt):
+                st = parent(st)
+            blk = None
+            p_ = parent(st)
+            for fld in ("body", "orelse", "finalbody"):
+                if p_ is not None and st in (getattr(p_, fld, None) or []):
+                    blk = getattr(p_, fld)
+            later = blk[blk.index(st) + 1:] if blk else []
+            if any(isinstance(x, ast.Call) and isinstance(x.func, ast.Attribute) and x.func.attr in ("_write_strategy_based_return", "_write_parsed_return") for y in later for x in ast.walk(y)):
+                good = c
+        if good is not None:
+            r.ok(rule, sub, "`case _ if 200 <= response.status_code < 300:` followed by the strategy's return / streaming loop", fn.loc(good))
+        else:
+            r.violation(rule, sub, f"{gen.fq}|no-arm-for-range-primary",
+                        "the strategy resolver takes a `2XX` key as primary response (any key starting with 2), but the dispatch writes arms for numeric keys only: the generated "
+                        "method never returns the declared body (and never yields: the client is a coroutine function where Protocol and mock are async generators)", fn.loc())
+
+    with_flatten_fallback(rep, gen, body)
